@@ -1067,6 +1067,55 @@ theorem noNamedRoot_spec (conf : List QC) (h : noNamedRoot conf = true) : ∀ c 
   have := List.all_eq_true.mp h c hc
   simpa [hr] using this
 
+/-! ### draining does not change what a parent offers to the scheduler -/
+
+theorem remove_stopped_iff (s : QState) : s.remove = .stopped ↔ s = .stopped := by cases s <;> simp [QState.remove]
+
+theorem offered_map (t : Tree) (f : RQ → RQ) (hp : ∀ q, (f q).path = q.path) (hpar : ∀ q, (f q).parent = q.parent)
+    (hpend : ∀ q, (f q).pending = q.pending) (hleaf : ∀ q, (f q).leaf = q.leaf)
+    (hst : ∀ q, ((f q).state = .stopped ↔ q.state = .stopped)) (p : String) :
+    offered (t.map f) p = offered t p := by
+  unfold offered
+  rw [find_map_pres t p f hp]
+  cases t.find p with
+  | none => rfl
+  | some q =>
+    simp only [Option.map_some, hleaf]
+    split
+    · rfl
+    · rw [List.filter_map, List.map_map]
+      have hg : ((fun c : RQ => decide (c.parent = p) && !(decide (c.state = .stopped)) && strictlyGreaterThanZero (some c.pending)) ∘ f) =
+          (fun c : RQ => decide (c.parent = p) && !(decide (c.state = .stopped)) && strictlyGreaterThanZero (some c.pending)) := by
+        funext c
+        simp only [Function.comp, hpar, hpend]
+        have := hst c
+        by_cases h1 : (f c).state = .stopped
+        · simp [h1, this.mp h1]
+        · have h2 : ¬ c.state = .stopped := fun h => h1 (this.mpr h)
+          simp [h1, h2]
+      have hm : ((fun x : RQ => x.path) ∘ f) = (fun x : RQ => x.path) := by funext c; simp [Function.comp, hp]
+      rw [hg, hm]
+
+theorem offered_markMissing (t : Tree) (conf : List QC) (p : String) : offered (markMissing t conf) p = offered t p := by
+  unfold markMissing
+  apply offered_map
+  · intro q; split <;> rfl
+  · intro q; split <;> rfl
+  · intro q; split <;> rfl
+  · intro q; split <;> rfl
+  · intro q
+    split
+    · exact remove_stopped_iff q.state
+    · exact Iff.rfl
+
+theorem offered_mem (t : Tree) (p : String) (q c : RQ) (hq : t.find p = some q) (hl : q.leaf = false) (hc : c ∈ t)
+    (hpar : c.parent = p) (hs : ¬ c.state = .stopped) (hpend : strictlyGreaterThanZero (some c.pending) = true) :
+    c.path ∈ offered t p := by
+  unfold offered
+  rw [hq]
+  simp only [hl, Bool.false_eq_true, if_false]
+  exact List.mem_map.mpr ⟨c, List.mem_filter.mpr ⟨hc, by simp [hpar, hs, hpend]⟩, rfl⟩
+
 /-! ### submission to a draining queue -/
 
 theorem admits_draining (t : Tree) (p : String) (create : Bool) (q : RQ) (h : t.find p = some q) (hd : q.state = .draining) :
